@@ -84,6 +84,7 @@ REQUIRED_BUCKETS += ["net/edit-" + e for e in ("add_successor", "remove_successo
                                                "predecessor_inplace_remove", "remove_lanelet", "add_lanelet_late",
                                                "add_existing_successor")]
 WORKERS = {"quick": 1, "thorough": 8}
+EXTRA_MODULES = ["CRProps.T20"]      # translator tie: Gen.SrcC20 (regenerated from the working tree every run) = hand model
 
 DIRS = [(3, 4, 5), (4, 3, 5), (5, 12, 13), (12, 5, 13), (8, 15, 17), (15, 8, 17), (7, 24, 25), (20, 21, 29), (1, 0, 1), (0, 1, 1)]
 TOL = 1e-9
